@@ -59,3 +59,31 @@ W unsigned w_strnode_create(size_t len, size_t* requested, size_t* stored) {
 }
 W size_t w_strnode_maxlen(void) { return StringNode::maxLength; }
 W size_t w_strnode_overhead(void) { return sizeofString(0); }
+// StringNode::resize: on failure (too long / allocator) the old node must be released; on success length updated
+W unsigned w_strnode_resize(size_t oldlen, size_t newlen, unsigned fm, size_t* stored, unsigned* frees) {
+  arena.reset(0); StringNode* n = StringNode::create(oldlen, &arena); if (!n) { *frees = 99; return 2; }
+  arena.failmask = fm << 1; unsigned f0 = arena.n_free;
+  StringNode* m = StringNode::resize(n, newlen, &arena);
+  *frees = arena.n_free - f0; *stored = m ? m->length : 0; return m != nullptr;
+}
+W unsigned w_refs_width(void) { return unsigned(sizeof(StringNode::references_type)); }
+W unsigned w_slotid_width(void) { return unsigned(sizeof(SlotId)); }
+// MemoryPoolList::clear from a state with `count` pools and a table of `capacity` entries (inline or heap)
+W void w_pool_clear(unsigned count, unsigned capacity, unsigned heapTable, unsigned freeList, POut* o) {
+  arena.reset(0);
+  PL pl; Pool* t = heapTable ? table : pl.*get(T_pre());
+  pl.*get(T_pools()) = t; pl.*get(T_count()) = PoolCount(count); pl.*get(T_cap()) = PoolCount(capacity); pl.*get(T_free()) = SlotId(freeList);
+  for (unsigned i = 0; i < TABLE && i < count; i++) { t[i].*get(T_pcap()) = 0; t[i].*get(T_pusage()) = 0; t[i].*get(T_pslots()) = nullptr; }
+  pl.clear(&arena);
+  o->count = pl.*get(T_count()); o->capacity = pl.*get(T_cap()); o->heap_table = (pl.*get(T_pools())) != (pl.*get(T_pre())); o->id = pl.*get(T_free());
+  o->allocs = arena.n_free; o->nullSlot = NULL_SLOT; o->initial = ARDUINOJSON_INITIAL_POOL_COUNT; o->maxPools = PL::maxPools;
+}
+// swap of two lists: every field of the state is exchanged (inline tables)
+W void w_pool_swap(unsigned ca, unsigned fa, unsigned cb, unsigned fb, POut* oa, POut* ob) {
+  PL a, b; a.*get(T_count()) = PoolCount(ca); a.*get(T_free()) = SlotId(fa); b.*get(T_count()) = PoolCount(cb); b.*get(T_free()) = SlotId(fb);
+  for (unsigned i = 0; i < ARDUINOJSON_INITIAL_POOL_COUNT; i++) { (a.*get(T_pre()))[i].*get(T_pusage()) = SlotCount(10 + i); (b.*get(T_pre()))[i].*get(T_pusage()) = SlotCount(20 + i); (a.*get(T_pre()))[i].*get(T_pslots()) = nullptr; (b.*get(T_pre()))[i].*get(T_pslots()) = nullptr; }
+  swap(a, b);
+  oa->count = a.*get(T_count()); oa->id = a.*get(T_free()); oa->last_usage = (a.*get(T_pre()))[0].*get(T_pusage()); oa->heap_table = (a.*get(T_pools())) != (a.*get(T_pre()));
+  ob->count = b.*get(T_count()); ob->id = b.*get(T_free()); ob->last_usage = (b.*get(T_pre()))[0].*get(T_pusage()); ob->heap_table = (b.*get(T_pools())) != (b.*get(T_pre()));
+  a.*get(T_count()) = 0; b.*get(T_count()) = 0;
+}
